@@ -84,12 +84,28 @@ fn c12_known(sig: &str) -> bool {
 fn case_strategy(_t: Tier) -> impl Strategy<Value = Case> {
     // serial 2^32-1 panicked the live run (overflow on increment) while that C12 defect existed
     let allow_max_serial = !c12_known("panic:proto/src/rr/rdata/soa.rs:attempt-to-add-with-overflow");
-    (updates::history(6, allow_max_serial), any::<u16>(), 0u8..3, prop::bool::weighted(0.25)).prop_map(|(hist, salt, phase, glue)| Case {
-        hist: sanitize(hist),
-        salt,
-        phase,
-        glue,
-        bulk: 0,
+    // 1 history in 25: one message (prerequisites removed, so that it is applied) adds 501-900 address
+    // records at fresh names on top of what it does anyway: far more rows than any batch size a
+    // journal writer might choose, all of them one UPDATE
+    let bulk_update = prop_oneof![24 => Just(0u16), 1 => 501u16..900];
+    (updates::history(6, allow_max_serial), any::<u16>(), 0u8..3, prop::bool::weighted(0.25), bulk_update).prop_map(|(hist, salt, phase, glue, bulk_update)| {
+        let mut hist = sanitize(hist);
+        if bulk_update > 0 && !hist.msgs.is_empty() {
+            let j = salt as usize % hist.msgs.len();
+            let m = &mut hist.msgs[j];
+            m.prereqs.clear();
+            m.full_prereq = None;
+            for i in 0..bulk_update {
+                m.updates.push(URr {
+                    name: labels_of(&format!("u{i}.bulk.zone.test.")),
+                    rtype: T_A,
+                    class: 1,
+                    ttl: 300,
+                    rdata: vec![10, 8, (i >> 8) as u8, i as u8],
+                });
+            }
+        }
+        Case { hist, salt, phase, glue, bulk: 0 }
     })
 }
 
@@ -554,6 +570,9 @@ fn body(c: &Case, rec: &mut Rec, what: What) -> CaseResult {
             z0.insert(&labels_of(&format!("h{i}.bulk.zone.test.")), T_A, 300, &[10, 9, (i >> 8) as u8, i as u8]);
         }
     }
+    if c.hist.msgs.iter().any(|m| m.updates.len() > 500) {
+        rec.class("history:one-update-of-more-than-500-rrs");
+    }
     let mut h = build_handler(&z0, AxfrPolicy::Deny).map_err(|e| Fail::new("harness-init", e))?;
     h.set_tsig_signers(vec![hickory_signer(&test_key(), 300)]);
     let journal = Journal::from_file(&jpath).map_err(|e| Fail::new("harness-init", e.to_string()))?;
@@ -655,7 +674,7 @@ pub fn check() -> Option<Check> {
     Some(Check {
         id: "C14",
         level: "fault_enumeration",
-        rule: "C12 histories (1..6 signed UPDATE messages through ZoneHandler::update; apex delete-all redirected, serial 2^32-1 avoided) on a SqliteZoneHandler with an on-disk journal incl. the initial persist_to_journal dump (a quarter of the initial zones also hold out-of-zone glue; 1 dump case in 31 has more than 1000 records); per history EVERY durable journal state is a stop point: the row count k after each SQLite commit as recorded by update/commit hooks on the journal's connection, which with this tree's autocommitted INSERTs is every k in 0..=rows (copy the file, DELETE rowid > k, restart through SqliteZoneHandler::try_from_config with that journal file in place - the path the server binary takes - and continue the remaining history on the handler it returns); journal_stop_twice additionally sweeps every stop point of the continuation for a third of the first-level points. Counters stop_points / recoveries / continuations give the number of (history, k) pairs. Non-trivial = distinct history containing at least one message that wrote >= 2 journal rows (so that some k lies strictly inside a message or between its update rows and its SOA row)",
+        rule: "C12 histories (1..6 signed UPDATE messages through ZoneHandler::update; apex delete-all redirected, serial 2^32-1 avoided) on a SqliteZoneHandler with an on-disk journal incl. the initial persist_to_journal dump (a quarter of the initial zones also hold out-of-zone glue; 1 dump case in 31 has more than 1000 records; 1 history in 25 holds one UPDATE that adds 501-900 records on top of its generated content); per history EVERY durable journal state is a stop point: the row count k after each SQLite commit as recorded by update/commit hooks on the journal's connection, which with this tree's autocommitted INSERTs is every k in 0..=rows (copy the file, DELETE rowid > k, restart through SqliteZoneHandler::try_from_config with that journal file in place - the path the server binary takes - and continue the remaining history on the handler it returns); journal_stop_twice additionally sweeps every stop point of the continuation for a third of the first-level points. Counters stop_points / recoveries / continuations give the number of (history, k) pairs. Non-trivial = distinct history containing at least one message that wrote >= 2 journal rows (so that some k lies strictly inside a message or between its update rows and its SOA row)",
         assumptions: vec![
             "a stop tears between SQLite commits (observed, not assumed); atomicity and durability of one SQLite commit are SQLite's and are trusted",
             "boundary states are those of the running server (C12 decides separately that they are the RFC 2136 states)",
